@@ -149,6 +149,21 @@ HistAppendCore(s, hasData) ==
     /\ ag' = [ag EXCEPT ![s] = "histq"]
     /\ UNCHANGED <<now, disk, rpc, sentTo, marked, acked, forgot, up, rows, polls, conv, batch, storedBy, replied, rejected, faults>>
 
+\* Graceful agent restart (the shutdown sequence of cmd/statshouse, process exit, a new agent on the
+\* same cache directory).  Memory is gone; what was saved is still on disk.  THE PROPERTY: a graceful
+\* restart forgets nothing - every second the old instance still held must be on disk.
+AgentRestartCore ==
+    /\ \A s \in Secs : ag[s] \in {"recent", "moving", "histq", "popped"} => s \in disk
+    /\ ag' = [s \in Secs |-> IF ag[s] \in {"recent", "moving", "histq", "popped", "ondisk"} THEN "ondisk" ELSE ag[s]]
+    /\ rpc' = [s \in Secs |-> Idle]
+    /\ UNCHANGED <<now, disk, sentTo, marked, acked, forgot, up, rows, polls, conv, batch, storedBy, replied, rejected, faults>>
+
+\* readHistoricSecondLocked: the new instance learns about a saved second from the disk cache
+ReadCore(s) ==
+    /\ ag[s] = "ondisk" /\ s \in disk
+    /\ ag' = [ag EXCEPT ![s] = "histq"]
+    /\ UNCHANGED <<now, disk, rpc, sentTo, marked, acked, forgot, up, rows, polls, conv, batch, storedBy, replied, rejected, faults>>
+
 \* popOldestHistoricSecondLocked
 PopCore(s) ==
     /\ ag[s] = "histq"
@@ -252,7 +267,7 @@ Filing(r, s, hist, oldest, newest, hw) ==
 --------------------------------------------------------------------------------
 (* PROPERTIES (state invariants over the core state) *)
 
-TypeOK == /\ \A s \in Secs : ag[s] \in {"none", "recent", "moving", "histq", "popped", "gone"}
+TypeOK == /\ \A s \in Secs : ag[s] \in {"none", "recent", "moving", "histq", "popped", "ondisk", "gone"}
           /\ disk \subseteq Secs /\ acked \subseteq Secs
 
 \* an agent forgets a buffered second with an ack reason only after an aggregator acknowledged it
@@ -262,7 +277,7 @@ ForgetOnlyAfterAck == \A s \in DOMAIN forgot : forgot[s] \in AckReasons => s \in
 AckOnlyAfterInsertOrReject == \A s \in acked : s \in Stored \/ s \in DOMAIN rejected
 
 \* until forgotten, a produced second is held somewhere by the agent (memory or disk)
-Held == \A s \in Secs : ag[s] \notin {"none", "gone"} => (ag[s] \in {"recent", "moving", "histq", "popped"})
+Held == \A s \in Secs : ag[s] = "ondisk" => s \in disk
 
 \* nothing that was forgotten with an ack reason is missing from storage unless deliberately rejected
 NoSilentLoss == \A s \in DOMAIN forgot : forgot[s] \in AckReasons => (s \in Stored \/ s \in DOMAIN rejected)
